@@ -507,3 +507,9 @@ def run(index, rep, tier):
                         rep.check(norm(w.base) in built, "R01.16", fi.qualname, "`%s.%s` stored from outside the bipartition" % (norm(w.base), w.attr), fn_where(fi, w.stmt), "%s: %s.%s of a bipartition built here" % (fi.name, norm(w.base), w.attr),
                                   "%s stores `%s.%s` directly: the bipartition's own setter for this mask asserts that the object is still mutable (a compiled bipartition is hashed by its split mask and sits in sets and dictionaries) and, for the tree leaf set, recomputes the lowest relevant bit the split is normalised on - written from outside, a frozen bipartition changes under its hash and the next compile normalises against the bit of the OLD leaf set" % (fi.qualname, norm(w.base), w.attr))
         rep.floor("R01.16", "stores of bipartition masks from outside the class", 1, n16)
+
+    # ---- R01.17 the compatibility predicates answer for the tree as it is
+    with rep.section("R01.17"):
+        rep.rule("R01.17", "the compatibility predicates answer for the tree as it is: every function that takes is_bipartitions_updated - Tree.is_compatible_with_bipartition among them - declares it with the default False (C04 R04.10), so a call with default arguments re-encodes instead of trusting an encoding cached before the tree was edited")
+        nb = borrow(index, rep, "C04", {"R04.10"}, "R01.17")
+        rep.floor("R01.17", "borrowed obligations", 20, nb)
